@@ -17,7 +17,8 @@ def register(gen, T):
         ast_rs = T.src("ast/src/ast_expressions.rs")
         irt_rs = T.src("ir/src/ir_types.rs")
         out = [T.header("HlslGenTables", ["hlsl/src/ast_generate.rs", "ir/src/intrinsics.rs",
-                                          "ir/src/ir_types.rs", "ast/src/ast_expressions.rs"])]
+                                          "ir/src/ir_types.rs", "ir/src/ir_statements.rs", "ast/src/ast_expressions.rs",
+                                          "typer/src/typer/statements.rs"])]
 
         def enum(name, lean_name, src):
             raw = [v for v, _ in enum_variants(src, name)]
@@ -183,6 +184,45 @@ def register(gen, T):
         for k, v in facts.items():
             out.append(f"def {k} : Bool := {'true' if v else 'false'}\n")
         out.append("\n")
+        # every arm of `match expr`: one per ir::Expression variant, none guarded (a guarded arm in front of a modelled one
+        # would special-case some operand shapes: `c ? a : b` with c = `a < b` written as `min(a, b)`, `x == x` as `true`, ...);
+        # the leaf / operator / call / ternary arms textually as modelled
+        evariants = [v for v, _ in enum_variants(T.src("ir/src/ir_expressions.rs"), "Expression")]
+        eexpected = {
+            "ir::Expression::Literal(lit)": "generate_literal(lit, context)?",
+            "ir::Expression::Variable(v)": "ast::Expression::Identifier(ast::ScopedIdentifier::trivial( context.get_variable_name(*v)?, ))",
+            "ir::Expression::Global(v)": "ast::Expression::Identifier(scoped_name_to_identifier( context.get_global_name_full(*v)?, ))",
+            "ir::Expression::TernaryConditional(expr_cond, expr_true, expr_false)": (
+                "{ let expr_cond = generate_expression(expr_cond, context)?; let expr_true = generate_expression(expr_true, context)?; "
+                "let expr_false = generate_expression(expr_false, context)?; let expr_cond = Box::new(Located::none(expr_cond)); "
+                "let expr_true = Box::new(Located::none(expr_true)); let expr_false = Box::new(Located::none(expr_false)); "
+                "ast::Expression::TernaryConditional(expr_cond, expr_true, expr_false) }"),
+            "ir::Expression::Call(id, ct, exprs)": (
+                "{ let tys = if let Some(template_instantiation_data) = context .module .function_registry "
+                ".get_template_instantiation_data(*id) { template_instantiation_data.template_args.as_slice() } else { &[] }; "
+                "if let Some(intrinsic) = context.module.function_registry.get_intrinsic_data(*id) { "
+                "generate_intrinsic_function(intrinsic, tys, exprs, context)? } else { generate_user_call(*id, ct, tys, exprs, context)? } }"),
+            "ir::Expression::IntrinsicOp(intrinsic, exprs)": "{ generate_intrinsic_op(intrinsic, exprs, context)? }",
+        }
+        erows = []
+        for pats, guard, result in match_arms(earms):
+            pat = " | ".join(pats)
+            km = re.fullmatch(r'ir::Expression::([A-Za-z0-9]+)(\(.*\))?', pat)
+            kind = km.group(1) if km else pat
+            erows.append((kind, guard is not None, pat not in eexpected or eexpected[pat] == normws(result)))
+        out.append("/-- `ir::Expression` -/\ndef expressionKinds : List String := " + T.lean_list(lean_str(k) for k in evariants) + "\n\n")
+        out.append("/-- the arms of `match expr` in generate_expression, in source order: (variant matched, the arm has a guard, the arm's\n"
+                   "body is textually the modelled one — checked for Literal / Variable / Global / TernaryConditional / Call / IntrinsicOp;\n"
+                   "the Sequence / Cast arms have their own facts above, the vector arms theirs in `Gen.HlslVecTables`) -/\n"
+                   "def expressionArms : List (String × Bool × Bool) :=\n  " +
+                   T.lean_list(f"({lean_str(k)}, {'true' if g else 'false'}, {'true' if ok else 'false'})" for k, g, ok in erows) + "\n\n")
+        ewrap = normws(ebody[:ebody.index("match expr")]) == "let expr =" and normws(ebody[ebody.index("match expr"):]).endswith("}; Ok(expr)")
+        out.append("/-- every expression variant has exactly one arm, no arm has a guard, the checked arms are the modelled ones, and\n"
+                   "the function is nothing but that match -/\n"
+                   "def expressionArmsAsModelled : Bool :=\n"
+                   "  expressionArms.length == expressionKinds.length &&\n"
+                   "  expressionKinds.all (fun k => (expressionArms.filter (fun a => a.1 == k)).length == 1) &&\n"
+                   f"  expressionArms.all (fun a => !a.2.1 && a.2.2) && {'true' if ewrap else 'false'}\n\n")
 
         # ---------------------------------------------------------------- generate_scope_block (label handling)
         sb = normws(fn_body(gen_rs, "generate_scope_block"))
@@ -203,6 +243,166 @@ def register(gen, T):
             r"location: SourceLocation::UNKNOWN, attributes: Vec::new\(\), \}\); ast::StatementKind::DefaultLabel\(empty_statement\) \}", gs))
         out.append("/-- generate_statement: a label is emitted with an empty statement in its slot; the constant goes through generate_literal -/\n"
                    f"def labelsEmittedEmpty : Bool := {'true' if labels_ok else 'false'}\n\n")
+
+        # ---------------------------------------------------------------- generate_statement: every arm of `match &statement.kind`
+        # (seeded mutant C01-3 added a *guarded* IfElse arm in front of the modelled one that rewrites the condition)
+        stmt_rs = T.src("ir/src/ir_statements.rs")
+        kinds = [v for v, _ in enum_variants(stmt_rs, "StatementKind")]
+        gbody = fn_body(gen_rs, "generate_statement")
+        _, garms, gend = first_match(gbody, r'^&statement\.kind$')
+        BOX = ("let %s = Box::new(ast::Statement { kind: ast::StatementKind::Block(%s), location: SourceLocation::UNKNOWN, "
+               "attributes: Vec::new(), });")
+        EMPTY = ("let empty_statement = Box::new(ast::Statement { kind: ast::StatementKind::Empty, location: SourceLocation::UNKNOWN, "
+                 "attributes: Vec::new(), });")
+        cond_block = lambda k: ("{ let cond = generate_expression(cond, context)?; let block = generate_scope_block(block, context)?; "
+                                "let cond = Located::none(cond); " + BOX % ("block", "block") + " ast::StatementKind::" + k + "(cond, block) }")
+        expected = {
+            "ir::StatementKind::Expression(expr)": "{ let expr = generate_expression(expr, context)?; ast::StatementKind::Expression(expr) }",
+            "ir::StatementKind::Var(def)": "{ let def = generate_variable_definition(def, context)?; ast::StatementKind::Var(def) }",
+            "ir::StatementKind::Block(block)": "{ let statements = generate_scope_block(block, context)?; ast::StatementKind::Block(statements) }",
+            "ir::StatementKind::If(cond, block)": cond_block("If"),
+            "ir::StatementKind::IfElse(cond, block_true, block_false)": (
+                "{ let cond = generate_expression(cond, context)?; let block_true = generate_scope_block(block_true, context)?; "
+                "let block_false = generate_scope_block(block_false, context)?; let cond = Located::none(cond); "
+                + BOX % ("block_true", "block_true") + " " + BOX % ("block_false", "block_false") +
+                " ast::StatementKind::IfElse(cond, block_true, block_false) }"),
+            "ir::StatementKind::For(init, cond, inc, block)": (
+                "{ let init = generate_for_init(init, context)?; "
+                "let cond = match cond { Some(cond) => Some(Located::none(generate_expression(cond, context)?)), None => None, }; "
+                "let inc = match inc { Some(inc) => Some(Located::none(generate_expression(inc, context)?)), None => None, }; "
+                "let block = generate_scope_block(block, context)?; " + BOX % ("block", "block") +
+                " ast::StatementKind::For(init, cond, inc, block) }"),
+            "ir::StatementKind::While(cond, block)": cond_block("While"),
+            "ir::StatementKind::DoWhile(block, cond)": (
+                "{ let block = generate_scope_block(block, context)?; let cond = generate_expression(cond, context)?; "
+                "let cond = Located::none(cond); " + BOX % ("block", "block") + " ast::StatementKind::DoWhile(block, cond) }"),
+            "ir::StatementKind::Switch(cond, block)": cond_block("Switch"),
+            "ir::StatementKind::Break": "ast::StatementKind::Break",
+            "ir::StatementKind::Continue": "ast::StatementKind::Continue",
+            "ir::StatementKind::Discard": "ast::StatementKind::Discard",
+            "ir::StatementKind::Return(expr_opt)": (
+                "{ if let Some(expr) = expr_opt { let expr = generate_expression(expr, context)?; "
+                "ast::StatementKind::Return(Some(Located::none(expr))) } else { ast::StatementKind::Return(None) } }"),
+            "ir::StatementKind::CaseLabel(value)": (
+                "{ let expr = generate_literal(value, context)?; " + EMPTY +
+                " ast::StatementKind::CaseLabel(Located::none(expr), empty_statement) }"),
+            "ir::StatementKind::DefaultLabel": "{ " + EMPTY + " ast::StatementKind::DefaultLabel(empty_statement) }",
+        }
+        srows = []
+        for pats, guard, result in match_arms(garms):
+            pat = " | ".join(pats)
+            km = re.fullmatch(r'ir::StatementKind::([A-Za-z0-9]+)(\(.*\))?', pat)
+            kind = km.group(1) if km else pat
+            srows.append((kind, guard is not None, expected.get(pat) == normws(result)))
+        out.append("/-- `ir::StatementKind` -/\ndef statementKinds : List String := " + T.lean_list(lean_str(k) for k in kinds) + "\n\n")
+        out.append("/-- the arms of `match &statement.kind` in generate_statement, in source order: (kind matched, the arm has a guard,\n"
+                   "the arm's body is textually the one `Model.GenHlsl.genStmt` mirrors: the condition goes through generate_expression\n"
+                   "unmodified, the blocks through generate_scope_block in source order, wrapped in attribute-free Block statements) -/\n"
+                   "def statementArms : List (String × Bool × Bool) :=\n  " +
+                   T.lean_list(f"({lean_str(k)}, {'true' if g else 'false'}, {'true' if ok else 'false'})" for k, g, ok in srows) + "\n\n")
+        out.append("/-- every statement kind has exactly one arm, no arm has a guard, every arm is the modelled one -/\n"
+                   "def statementArmsAsModelled : Bool :=\n"
+                   "  statementArms.length == statementKinds.length &&\n"
+                   "  statementKinds.all (fun k => (statementArms.filter (fun a => a.1 == k)).length == 1) &&\n"
+                   "  statementArms.all (fun a => !a.2.1 && a.2.2)\n\n"
+                   "/-- the IfElse arm: one arm, unguarded (it applies to empty and non-empty blocks alike), emits\n"
+                   "`IfElse(gen cond, Block(gen block_true), Block(gen block_false))` — both blocks, in order, the condition unmodified -/\n"
+                   "def ifElseArmAsModelled : Bool :=\n"
+                   "  (statementArms.filter (fun a => a.1 == \"IfElse\")) == [(\"IfElse\", false, true)]\n\n")
+        wrap_ok = normws(gbody[:gbody.index("let kind = match")]) == (
+            "let mut attributes = Vec::new(); for attribute in &statement.attributes { "
+            "attributes.push(generate_statement_attribute(attribute, context)?); }") and \
+            normws(gbody[gend:]) == "; Ok(ast::Statement { kind, location: SourceLocation::UNKNOWN, attributes, })"
+        out.append("/-- around the match: the attributes are translated one by one in order, the result is the matched kind with them -/\n"
+                   f"def statementWrapperAsModelled : Bool := {'true' if wrap_ok else 'false'}\n")
+        fi = normws(fn_body(gen_rs, "generate_for_init"))
+        fi_ok = fi == (
+            "let ast = match init { ir::ForInit::Empty => ast::InitStatement::Empty, ir::ForInit::Expression(expr) => { "
+            "ast::InitStatement::Expression(Located::none(generate_expression(expr, context)?)) } ir::ForInit::Definitions(defs) => { "
+            "let (head, tail) = defs.split_first().unwrap(); let mut ast = generate_variable_definition(head, context)?; "
+            "assert_eq!(ast.defs.len(), 1); for def in tail { let mut tail_ast = generate_variable_definition(def, context)?; "
+            "assert_eq!(ast.local_type, tail_ast.local_type); assert_eq!(tail_ast.defs.len(), 1); ast.defs.append(&mut tail_ast.defs); } "
+            "ast::InitStatement::Declaration(ast) } }; Ok(ast)")
+        out.append("/-- generate_for_init: empty / one expression / the definitions in order under the first one's base type -/\n"
+                   f"def forInitAsModelled : Bool := {'true' if fi_ok else 'false'}\n\n")
+
+        # ---------------------------------------------------------------- statement attributes: exporter's names, type checker's names
+        abody = fn_body(gen_rs, "generate_statement_attribute")
+        _, aarms, _ = first_match(abody, r'^attribute$')
+        arows = []
+        for pats, guard, result in match_arms(aarms):
+            if guard is not None or len(pats) != 1:
+                raise ExtractError("generate_statement_attribute: guard / alternative patterns unsupported")
+            pm = re.fullmatch(r'ir::StatementAttribute::([A-Za-z0-9]+)(\((.*)\))?', pats[0])
+            r = normws(result)
+            rm = re.fullmatch(r'ast::Attribute \{ name: Vec::from\(\[Located::none\("([a-z_]+)"\.to_string\(\)\)\]\), arguments: (.*), two_square_brackets: false, \}', r)
+            if not pm or not rm:
+                raise ExtractError(f"generate_statement_attribute: arm {pats[0]!r} => {r[:80]!r}")
+            payload = pm.group(3) or ""
+            if rm.group(2) == "Vec::new()":
+                args = "none"
+            elif rm.group(2) == "Vec::from([Located::none(ast::Expression::Literal( ast::Literal::IntUntyped(*v), ))])" and payload == "Some(v)":
+                args = "count"
+            else:
+                raise ExtractError(f"generate_statement_attribute: arguments {rm.group(2)[:80]!r}")
+            arows.append((pm.group(1), payload, rm.group(1), args))
+        avariants = [v for v, _ in enum_variants(stmt_rs, "StatementAttribute")]
+        tbody = fn_body(T.src("typer/src/typer/statements.rs"), "parse_statement_attribute")
+        _, tarms, tend = first_match(tbody, r'^lower_name\.as_str\(\)$')
+        trows = []
+        for pats, guard, result in match_arms(tarms):
+            if pats == ["_"]:
+                continue
+            tm = re.fullmatch(r'Some\(ir::StatementAttribute::([A-Za-z0-9]+)\)', normws(result))
+            if guard is not None or len(pats) != 1 or not re.fullmatch(r'"[a-z_]+"', pats[0]) or not tm:
+                raise ExtractError(f"parse_statement_attribute: arm {pats!r}")
+            trows.append((pats[0].strip('"'), tm.group(1)))
+        _, tarms2, _ = first_match(tbody, r'^lower_name\.as_str\(\)$', tend)
+        for pats, guard, result in match_arms(tarms2):
+            if pats == ['"unroll"']:
+                r = normws(result)
+                if "Ok(ir::StatementAttribute::Unroll(None))" in r and "Ok(ir::StatementAttribute::Unroll(Some(value)))" in r:
+                    trows.append(("unroll", "Unroll"))
+        out.append("/-- `ir::StatementAttribute` -/\ndef statementAttributeKinds : List String := " + T.lean_list(lean_str(k) for k in avariants) + "\n")
+        out.append("/-- generate_statement_attribute: (variant, payload pattern, emitted attribute name, arguments: `none` or the unroll count\n"
+                   "as an unsuffixed integer literal) -/\n"
+                   "def statementAttributeEmitted : List (String × String × String × String) :=\n  " +
+                   T.lean_list(f"({lean_str(a)}, {lean_str(b)}, {lean_str(c)}, {lean_str(d)})" for a, b, c, d in arows) + "\n")
+        out.append("/-- parse_statement_attribute (type checker): (lower-cased source name, variant) -/\n"
+                   "def statementAttributeParsed : List (String × String) :=\n  " +
+                   T.lean_list(f"({lean_str(a)}, {lean_str(b)})" for a, b in trows) + "\n\n")
+
+        # ---------------------------------------------------------------- the small helpers Model.GenHlsl mirrors, pinned whole
+        pins = {
+            "generate_user_call": (
+                "let (object, arguments) = match ct { ir::CallType::FreeFunction => { let scoped_name = context.get_function_name_full(id)?; "
+                "let object = ast::Expression::Identifier(scoped_name_to_identifier(scoped_name)); (object, exprs.as_slice()) } "
+                "ir::CallType::MethodExternal => { let leaf_name = ast::ScopedIdentifier::trivial(context.get_function_name(id)?); "
+                "let object = generate_expression(&exprs[0], context)?; let method = ast::Expression::Member(Box::new(Located::none(object)), leaf_name); "
+                "(method, &exprs[1..]) } ir::CallType::MethodInternal => { let leaf_name = context.get_function_name(id)?; "
+                "let object = ast::Expression::Identifier(ast::ScopedIdentifier::trivial(leaf_name)); (object, exprs.as_slice()) } }; "
+                "let type_args = generate_template_type_args(tys, context)?; let args = generate_invocation_args(arguments, context)?; "
+                "let expr = ast::Expression::Call(Box::new(Located::none(object)), type_args, args); Ok(expr)"),
+            "generate_invocation_args": (
+                "let mut ast = Vec::new(); for expr in exprs { ast.push(Located::none(generate_expression(expr, context)?)); } Ok(ast)"),
+            "generate_variable_definition": (
+                "let var_def = context.module.variable_registry.get_local_variable(def.id); let storage_modifier = match var_def.storage_class { "
+                "ir::LocalStorage::Local => None, ir::LocalStorage::Static => Some(ast::TypeModifier::Static), }; "
+                "let precise_modifier = if var_def.precise { Some(ast::TypeModifier::Precise) } else { None }; "
+                "let name = context.get_variable_name(def.id)?.to_string(); "
+                "let (base, declarator) = generate_type_and_declarator(var_def.type_id, &name, false, context)?; "
+                "let local_type = prepend_modifiers(base, &[storage_modifier, precise_modifier]); "
+                "let init = generate_initializer(&def.init, context)?; "
+                "let init_declarator = ast::InitDeclarator { declarator, location_annotations: Vec::new(), init, }; "
+                "let def = ast::VarDef { local_type, defs: Vec::from([init_declarator]), }; Ok(def)"),
+            "generate_initializer": (
+                "if let Some(init) = init_opt { Ok(Some(generate_initializer_inner(init, context)?)) } else { Ok(None) }"),
+        }
+        out.append("/-- helper functions of the exporter whose whole body is textually the one `Model.GenHlsl` mirrors (call: callee name\n"
+                   "+ the arguments in order; variable definition: modifiers, type, name, initialiser) -/\n"
+                   "def helperBodies : List (String × Bool) :=\n  " +
+                   T.lean_list(f"({lean_str(k)}, {'true' if normws(fn_body(gen_rs, k)) == v else 'false'})" for k, v in pins.items()) + "\n"
+                   "def helperBodiesAsModelled : Bool := helperBodies.all (fun p => p.2)\n\n")
 
         # ---------------------------------------------------------------- generate_scalar_type
         sbody = fn_body(gen_rs, "generate_scalar_type")
